@@ -806,7 +806,7 @@ def table(tier):
                     yield {'kind': 'organizer', 'family': fam, 'pattern': list(pattern), 'mode': mode}
     for i in range(len(TYPE_TABLE)):
         yield {'kind': 'type', 'index': i}
-    texts = ['hello world', 'Hello, World!', 'hello world\n', 'a\nb', 'b\na', '', 'x', '5.0', 'HELLO   WORLD',
+    texts = ['hello world', 'Hello, World!', 'hello world\n', 'a\nb', 'b\na', '', 'x', '5.0', 'HELLO   WORLD', 'hello world\n\n', 'x\n\n\n', 'x\r\n',
              # letters whose lower-case and case-folded forms differ
              'Die Straße ist lang', 'STRASSE', 'MASSE: 12 kg', 'maße', 'Η ΟΔΟΣ', 'οδοσ']
     for printed, expected, exact in itertools.product(texts, texts, (False, True)):
